@@ -10,7 +10,7 @@ CC       ?= gcc
 
 COMMON := -std=gnu++17 -march=native -fopenmp -DNDEBUG -DPGM_INDEX_VERIF -I$(REPO)/include -I$(REPO)/c-interface -I/verif \
           -MMD -MP -g1 -Wall -Wno-unused-function -Wno-unknown-pragmas -Wno-sign-compare -Wno-unused-but-set-variable -Wno-unused-variable -Wno-maybe-uninitialized -Wno-class-memaccess -Wno-misleading-indentation
-WRAP   := -Wl,--wrap=GOMP_parallel,--wrap=omp_get_thread_num,--wrap=omp_get_num_threads,--wrap=omp_get_num_procs,--wrap=omp_get_max_threads
+WRAP   := -Wl,--wrap=GOMP_parallel,--wrap=omp_get_thread_num,--wrap=omp_get_num_threads,--wrap=omp_get_num_procs,--wrap=omp_get_max_threads,--wrap=GOMP_barrier,--wrap=GOMP_critical_start,--wrap=GOMP_critical_end,--wrap=GOMP_critical_name_start,--wrap=GOMP_critical_name_end,--wrap=GOMP_atomic_start,--wrap=GOMP_atomic_end,--wrap=GOMP_single_start
 FLAGS_plain := -O2
 FLAGS_asan  := -O1 -fsanitize=address -fno-omit-frame-pointer
 FLAGS_tsan  := -O1 -fsanitize=thread
